@@ -12,7 +12,7 @@ LEVEL_TEXT = ('Partial. Coq theorems over R: the regenerated flow direction is t
               'eqps non-decreasing over any history, yield consistency to the solver tolerance, idempotence for rate-independent hardening; a '
               '(nearly) stationary point of the incremental potential minimises it over eqps >= eqps_old when the hardening is convex; flow stresses of '
               'linear / Voce / power-law hardening are the derivatives of the regenerated energies and are monotone; isochoric flow given '
-              'det(exp A) = exp(tr A). All conditional on the root finder returning a number (C17 finding F7). The tensor-level histories for the three '
+              'det(exp A) = exp(tr A); the elastic-branch threshold of the yield test must equal the root tolerance (overstress bound max(thr, tol), tight). All conditional on the root finder returning a number (iteration cap: C17 finding F7, here F13); flat hardening is not excluded (end-point rule). The tensor-level histories for the three '
               'kinematics, rate sensitivity and energy/stress equality before/after committing are tied/tested on the code (L1/L2), not proved.')
 TECHNIQUE = 'Coq proof (Reals + Coquelicot) over kernels regenerated from the Python AST and a scalar state machine reusing the C17 model; vm_compute/PrimFloat correspondence'
 GEN = ['ScalarRootFind', 'Hardening', 'TensorMath', 'J2Flow', 'J2Elastic']
@@ -26,13 +26,13 @@ TRUSTED = ['Coq 8.16.1 kernel + vm_compute (no native_compute)',
            'flow stresses/slopes written out in the model (jax.grad of the hardening energy in the code); proved to be the derivatives for the three '
            'rate-independent laws, compared numerically for the rate term',
            'binary64 exp/ln of the model are approximations (1e-15 relative) used only for execution']
-ASSUMPTIONS = ['exact real arithmetic in theorems (for flat hardening the residual at the upper bracket end is an exact root over R but rounding noise in binary64: finding F12)', 'Section hypothesis det(exp A) = exp(tr A) for TensorMath.exp_symm (C09_isochoric)',
+ASSUMPTIONS = ['exact real arithmetic in theorems (flat hardening: the residual at the upper bracket end is within the tolerance, the repaired root finder returns that end; F12 fixed)', 'Section hypothesis det(exp A) = exp(tr A) for TensorMath.exp_symm (C09_isochoric)',
                'flow stress does not drop between eqps_old and the elastic-predictor bound (holds for H >= 0, Ysat >= Y0, n > 0; stated as a premise)',
                'the root finder returns a number (otherwise NaN state: C17 finding F7)',
                'jax.grad / jacfwd of the potential is its derivative']
 RULE = ('inputs: seeded material constants (E, nu, Y0, hardening parameters, rate parameters) for sampled combinations of kinematics x hardening law '
         'x rate sensitivity (quick: 6 of 18 per run covering every kinematics and law; thorough: all 18), batches of multi-step displacement-gradient '
-        'histories (monotonic, reversing, non-proportional random walks, repeated states, increments from 1e-3 to 30 yield strains with the accumulated strain norm kept below 0.8, time steps 1e-3..10); '
+        'histories (monotonic, reversing, non-proportional random walks, repeated states, lanes of tiny increments sweeping the overstress from 1e-12 to 1e-6 Y0 across yield, E/Y0 from 30 to 1e4, perfect plasticity and a saturating Voce law in every run, increments from 1e-3 to 30 yield strains with the accumulated strain norm kept below 0.8, time steps 1e-3..10); '
         'a step is non-trivial when it yields; distinct = distinct (configuration, history, step) triples that yield')
 IMPORTS = ['From OV.gen Require Import Gen_Hardening Gen_J2Flow.', 'From OV.model Require Import M_C09.']
 
@@ -42,16 +42,16 @@ LAWS = ['linear', 'voce', 'power law']
 
 # ----------------------------------------------------------------------------- configurations and histories
 
-def gen_props(r, kin, law, rate):
+def gen_props(r, kin, law, rate, flat=False):
     E = 10.0 ** r.uniform(1, 3)
     nu = r.uniform(0.05, 0.45)
-    Y0 = E * 10.0 ** r.uniform(-3, -1.5)
+    Y0 = E * 10.0 ** r.uniform(-4, -1.5)          # E/Y0 from 30 to 1e4 (stiff materials included)
     p = {'elastic modulus': E, 'poisson ratio': nu, 'yield strength': Y0, 'kinematics': kin, 'hardening model': law}
     if law == 'linear':
-        p['hardening modulus'] = r.choice([0.0, E * 10.0 ** r.uniform(-3, -0.5)])
+        p['hardening modulus'] = 0.0 if flat else r.choice([0.0, E * 10.0 ** r.uniform(-3, -0.5)])      # flat: perfect plasticity
     elif law == 'voce':
-        p['saturation strength'] = Y0 * r.uniform(1.0, 3.0)
-        p['reference plastic strain'] = 10.0 ** r.uniform(-3, -1)
+        p['saturation strength'] = Y0 * (r.uniform(1.0, 1.5) if flat else r.uniform(1.0, 3.0))
+        p['reference plastic strain'] = Y0 / E * r.uniform(0.2, 1) if flat else 10.0 ** r.uniform(-3, -1)   # flat: saturates within a few yield strains
     else:
         p['hardening exponent'] = r.uniform(1.5, 12.0)
         p['reference plastic strain'] = Y0 / E * r.uniform(0.5, 2)
@@ -67,16 +67,21 @@ def gen_configs(ctx):
     r = ctx.rng('configs')
     allc = [(k, l, rt) for k in KINS for l in LAWS for rt in (False, True)]
     if ctx.quick():
-        r.shuffle(allc)
-        chosen = []
-        for c in allc:                       # cover every kinematics and every law at least once, both rate settings
-            need = (c[0] not in [x[0] for x in chosen]) or (c[1] not in [x[1] for x in chosen]) or (c[2] not in [x[2] for x in chosen])
-            if need or len(chosen) < 6:
-                chosen.append(c)
-            if len(chosen) >= 6 and {x[0] for x in chosen} == set(KINS) and {x[1] for x in chosen} == set(LAWS) and {x[2] for x in chosen} == {False, True}:
-                break
-        allc = chosen[:7]
-    return [dict(kin=k, law=l, rate=rt, props=gen_props(r, k, l, rt)) for (k, l, rt) in allc]
+        ks = list(KINS)
+        r.shuffle(ks)
+        # always: perfect plasticity and a saturating Voce law without rate sensitivity, a rate-sensitive power law; every kinematics once
+        chosen = [(ks[0], 'linear', False), (ks[1], 'voce', False), (ks[2], 'power law', True)]
+        rest = [c for c in allc if c not in chosen]
+        r.shuffle(rest)
+        allc = chosen + rest[:3]
+    flat_done = set()
+    out = []
+    for (k, l, rt) in allc:
+        flat = (not rt) and l in ('linear', 'voce') and l not in flat_done
+        if flat:
+            flat_done.add(l)
+        out.append(dict(kin=k, law=l, rate=rt, flat=flat, props=gen_props(r, k, l, rt, flat)))
+    return out
 
 
 def gen_histories(ctx, cfg, nb, ns):
@@ -94,8 +99,11 @@ def gen_histories(ctx, cfg, nb, ns):
             s = s - onp.trace(s) / 3 * onp.eye(3) * r.choice([1.0, 0.7])
         return s / onp.linalg.norm(s)
 
+    P = cfg['props']
+    mu_ = P['elastic modulus'] / (2 * (1 + P['poisson ratio']))
+    nt = ctx.n(3, 6)                       # lanes sweeping tiny overstress increments across yield
     for b in range(nb):
-        mode = b % 5
+        mode = b % 5 if b < nb - nt else 5
         amp = ey * r.choice([1e-3, 0.3, 3.0, 3.0, 30.0]) if mode != 4 else ey * r.choice([0.3, 3.0])
         amp = min(amp, 0.8 / ns)            # admissible deformations: accumulated strain norm stays below ~0.8 (stretches within e^+-0.8)
         d0 = rand_dir()
@@ -117,6 +125,16 @@ def gen_histories(ctx, cfg, nb, ns):
                     eps = (k + 1) * amp * d0
                 elif k % 2 == 1:
                     eps = eps + 1e-3 * ey * rand_dir() * r.choice([0.0, 1.0])
+            elif mode == 5:                                 # load 2% past yield, then increments adding overstress 1e-12 .. 1e-6 Y0
+                if k == 0:
+                    dd = d0 - onp.trace(d0) / 3 * onp.eye(3)
+                    dd = dd / onp.linalg.norm(dd)
+                    unit = P['yield strength'] / (2 * mu_ * math.sqrt(1.5))
+                    eps = 1.02 * unit * dd
+                    w = w * 0.0
+                else:
+                    theta = 10.0 ** (-12 + 6.0 * (k - 1) / max(ns - 2, 1) + r.uniform(-0.3, 0.3))
+                    eps = eps + theta * unit * dd
             else:                                           # rotating direction
                 eps = eps + amp * (math.cos(k) * d0 + math.sin(k) * rand_dir())
             if cfg['kin'] == 'small deformations':
@@ -321,7 +339,7 @@ def kernel_checks(ctx):
 
 def correspondence(ctx, model_ok):
     cfgs = gen_configs(ctx)
-    nb, ns = ctx.n(10, 30), ctx.n(8, 16)
+    nb, ns = ctx.n(13, 36), ctx.n(8, 16)
     total = yielding = 0
     distinct = set()
     l1 = []
@@ -372,11 +390,6 @@ def correspondence(ctx, model_ok):
         marg = abs(rec['s'] - rec['Yo'] - tol)
         if marg < 1e-9 * (abs(rec['s']) + tol):
             ctx.count('near_tie_yield_test_skipped')
-            continue
-        if abs(rec['Y_ub'] - rec['Yo']) <= 1e-12 * (abs(rec['s']) + abs(rec['Yo'])) and rec['s'] - rec['Yo'] > tol:
-            # flat hardening: whether the residual at the upper bracket end is +0, -0 or +-1 ulp is decided by the order of the
-            # floating-point operations (finding F12); model and implementation need not make the same decision
-            ctx.count('near_tie_flat_hardening_skipped')
             continue
         if rr[0] == 0:
             mism += 1
